@@ -199,6 +199,17 @@ def engine(name, projector, n_quick, n_thorough, **kw):
 
 
 PROPS = {
+    'C12': dict(
+        engines=[engine('snapshot', lambda: AllProj(lambda k, op, b: (k == 'crashscan' and 'renamed=' in b) or k == 'overlap'), 24, 600)],
+        rule="engine snapshot (real clock): after 1-3 commands, `crashscan`: a random command is run while the bytes at the state path are "
+             "captured at every step boundary of the snapshot write (after listing, after creating the temp file, after writing it, after the "
+             "rename); each capture is restored into a fresh router and its configuration compared with the model (old, old, old, new); "
+             "`overlap`: command A is parked at a chosen snapshot step while command B runs (B must wait for the snapshot lock), then both "
+             "finish and the file's restored configuration must equal the live one and the model's. Non-trivial = a command that writes a "
+             "snapshot, or an overlap.",
+        assumptions=["the OS is modelled: rename is atomic, a kill happens between system calls (no power-loss semantics)",
+                     "the harness goroutine order for `overlap` is forced by parking at the tag-guarded snap.* hooks"],
+    ),
     'C14': dict(
         engines=[engine('buffer', lambda: AllProj(lambda k, op, b: ('spill=1' in b) or ('tl' in b) or k != 'buf'), 60, 3000)],
         rule="engine buffer: (1) exhaustive small scope on every run - every buffer-memory 0..5 x max-bytes 0..6 x every composition of every "
